@@ -220,9 +220,19 @@ class SymVec:
             vs._ty.assume_wf(vs.term)
             old, other = self.term, vs.term
             a, n, b, m = self.arr(), self._len(), vs.arr(), vs._len()
-            k = z3.Int("vec_ext_k")
-            new = self._ty.mk(z3.Lambda([k], z3.If(k < n, z3.Select(a, k), z3.Select(b, k - n))), n + m)
-            self._loc.set(new)
+            from .spec import forall, implies
+            from . import types as T
+            c = _c()
+            cat = c.fresh("vec_cat", z3.ArraySort(z3.IntSort(), self._ty.elem.sort()))
+
+            def tail(k):
+                if getattr(c, "inst_depth", 0) > 0 and z3.is_const(k.t):
+                    c.note_term(z3.simplify(k.t - n))       # facts about `vs` reach the copied elements
+                return implies(mk_bool(z3.And(n <= k.t, k.t < n + m)), mk_bool(z3.Select(cat, k.t) == z3.Select(b, k.t - n)))
+            c.assume_value(forall(T.Int, lambda k: implies(mk_bool(z3.And(0 <= k.t, k.t < n)),
+                                                           mk_bool(z3.Select(cat, k.t) == z3.Select(a, k.t))), "vx_k"))
+            c.assume_value(forall(T.Int, tail, "vx_t"))
+            self._loc.set(self._ty.mk(cat, n + m))
             _run_hooks("extend", old, other, self.term, self._ty)
             return
         raise OutOfReach("Vec.extend with a symbolic argument")
